@@ -133,6 +133,10 @@ def concretise(name, h, f, x, rnd, jitter=False):
         if idx & 15:
             return None
         text = s[:salt_last] + bcrypt64.charmap[idx | rnd.choice([1, 5, 15])] + s[salt_last + 1:]
+        # the digest (31 digits for 184 bits) ends in two unused bits as well: documented as repaired in the same way
+        didx = bcrypt64.charmap.index(s[-1])
+        if didx & 3 == 0 and rnd.random() < .5:
+            text = s[:-1] + bcrypt64.charmap[didx | rnd.choice([1, 2, 3])]
     elif x["rounds"] == IMPLICIT and "rounds=" in s:
         return ("generated-not-elided", s, used)
     return text, canon, used, ctx, s
@@ -372,13 +376,16 @@ def extra_variants(chk, rnd):
         from libpass.inspect.phc.defs import Argon2PHC, BcryptSHA256PHCV2
         def b64n(n):
             return _b64.b64encode(bytes(range(n))).decode().rstrip("=")
-        for sl, hl in ((8, 12), (9, 13), (16, 32), (47, 63), (48, 64), (8, 64), (48, 12), (33, 48)):
-            text = f"$argon2id$v=19$m=65536,t=3,p=4${b64n(sl)}${b64n(hl)}"
-            chk.count(("phc", sl, hl))
+        for k, (sl, hl) in enumerate(((8, 12), (9, 13), (16, 32), (47, 63), (48, 64), (8, 64), (48, 12), (33, 48), (16, 32), (16, 32))):
+            aid = ("argon2id", "argon2i", "argon2d")[k % 3]          # every identifier the record definition lists
+            text = f"${aid}$v=19$m=65536,t=3,p=4${b64n(sl)}${b64n(hl)}"
+            chk.count(("phc", sl, hl, aid))
             chk.action("libpass-inspect")
             try:
                 rec = inspect_phc(text, Argon2PHC)
                 back = rec.as_str() if rec is not None else None
+                if rec is not None and getattr(rec, "id", aid) != aid:
+                    back = f"record id {rec.id!r}"
             except Exception as ex:
                 back = f"{type(ex).__name__}: {ex}"
             if back != text:
